@@ -12,6 +12,9 @@ def dispatch(prop: str):
     if prop in ("C01", "C03", "C06", "C18"):
         from .engines import layout_checks
         return lambda tier, seed: layout_checks.check(prop, tier, seed)
+    if prop in ("C04", "C05", "C08", "C09"):
+        from .engines import edit_checks
+        return lambda tier, seed: edit_checks.check(prop, tier, seed)
     raise SystemExit(f"no check registered for {prop}")
 
 
